@@ -5,12 +5,14 @@ use serde_json::{json, Value};
 
 mod split;
 mod chash;
+mod sync;
 
 fn dispatch(op: &str, arg: &Value) -> Result<Value, String> {
     match op {
         "split" => split::op_split(arg),
         "streamread" => split::op_streamread(arg),
         "chash" => chash::op_chash(arg),
+        "sync" => sync::op_sync(arg),
         _ => Err(format!("unknown op {}", op)),
     }
 }
